@@ -149,8 +149,7 @@ mod imp {
                 d.failed = false;
             } else {
                 if !d.failed && d.obs.samples.len() < d.obs.max_samples && idx % 997 == 0 {
-                    let t = d.trace.join("; ");
-                    d.obs.sample(format!("{}: {}", d.case, t));
+                    d.sample_trace();
                 }
                 d.finish(&mut odo, true);
                 d.obs.inc("histories");
